@@ -386,7 +386,7 @@ static void project(char *buf, size_t n, const char *topdesc) {
         if (H[i] && m_mod_state(H[i]) != M_MOD_ZOMBIE)
             k += snprintf(buf + k, n - k, "|%s:%s:%d:%d:%d:%d:%d:%d:%d", LN[i], stname(H[i]), mailbox_len(H[i]), (int)m_queue_len(H[i]->batch.events),
                           (int)m_queue_len(H[i]->stashed), (int)m_stack_len(H[i]->recvs), (int)(H[i]->batch.len > 99 ? 99 : H[i]->batch.len),
-                          H[i]->tb.rate ? (int)(H[i]->tb.tokens > 9 ? 9 : H[i]->tb.tokens) : -1, H[i]->batch.timer.ns != 0);
+                          H[i]->tb.burst != UINT64_MAX ? (int)(H[i]->tb.tokens > 9 ? 9 : H[i]->tb.tokens) : -1, H[i]->batch.timer.ns != 0);
         else k += snprintf(buf + k, n - k, "|%s:%s:0:0:0:0:0:-1:0", LN[i], stname(H[i]));
     /* source counts per kind through the public API (subscriptions, fd, tmr, sgn, path, pid, task, thresh), and the total */
     k += snprintf(buf + k, n - k, "|src:");
@@ -836,10 +836,10 @@ static void exec_action(gw_edge *e) {
         });
     }
     else if (!strcmp(a, "SetTokenBucket")) {
-        /* arg "[rate;burst]": rate id 1 -> 4 per second (period 250 ms), 2 -> 1000 per second */
+        /* arg "[rate;burst]": rate id 1 -> 65536 per second (does not fit 16 bits), 2 -> 1000 per second (period = user timer 1) */
         int rate = 0, burst = 0;
         sscanf(e->sargs[1], "[%d;%d]", &rate, &burst);
-        r = m_mod_set_tokenbucket(H[m], rate == 0 ? 0 : rate == 1 ? 4 : 1000, (uint64_t)burst);
+        r = m_mod_set_tokenbucket(H[m], rate == 0 ? 0 : rate == 1 ? 65536 : 1000, (uint64_t)burst);
         if (r == -EAGAIN) { keep = 2; }
     }
     else if (!strcmp(a, "SetBatchTimeout")) r = m_mod_set_batch_timeout(H[m], e->args[1] ? 7000000ULL : 0);
